@@ -32,6 +32,7 @@ type solver struct {
 	timeoutMs int
 	log       io.Writer
 	dead      bool
+	broken    bool // pipe failed: the process must be replaced
 }
 
 func newSolver(kind string, timeoutMs int) (*solver, error) {
@@ -89,6 +90,7 @@ func (s *solver) send(txt string) {
 		io.WriteString(s.log, txt+"\n")
 	}
 	if _, err := io.WriteString(s.in, txt+"\n"); err != nil {
+		s.broken = true
 		panic(engineAbort{kind: abortSolver, msg: "solver pipe: " + err.Error()})
 	}
 }
@@ -165,6 +167,7 @@ func (s *solver) pop()  { s.send("(pop 1)") }
 func (s *solver) readLine() string {
 	line, err := s.out.ReadString('\n')
 	if err != nil {
+		s.broken = true
 		panic(engineAbort{kind: abortSolver, msg: "solver died: " + err.Error()})
 	}
 	return strings.TrimRight(line, "\r\n")
